@@ -311,6 +311,91 @@ func genScript(r *rng.R, tag string, ordered bool, wantMulti bool, hot bool, n i
 	return corr.Case{Tag: tag, Lines: lines}
 }
 
+// genLongList: a multi-key call with 13..24 keys (ascending ids, duplicate free) on a sharded generic locker with 2..3
+// shards, so that many keys share a shard, against contenders for two same-shard keys of that list.
+//   variant 0/1 (order probe): a contender holds a same-shard key b; the long call parks on it; every same-shard key that
+//     precedes b in the list must then be held by the long call (probes park), keys of later shards must be free.
+//   variant 2 (deadlock): a short RLocks [a,b] and the long Locks meet on a and b while a reader and a writer hand a over.
+func genLongList(r *rng.R, variant int) corr.Case {
+	sh := shape{kind: "tkg", hash: r.Pick("mod", "xh", "str"), prime: r.PickInt(2, 2, 3), N: 0, K: r.Range(13, 24)}
+	for i := 0; i < sh.K; i++ {
+		sh.shards = append(sh.shards, r.Intn(sh.prime))
+	}
+	// the list: all keys, or all but a few
+	var list []int
+	for k := 0; k < sh.K; k++ {
+		if sh.K-len(list) <= 13-len(list) || !r.Chance(1, 8) {
+			list = append(list, k)
+		}
+	}
+	for len(list) < 13 {
+		list = nil
+		for k := 0; k < sh.K; k++ {
+			list = append(list, k)
+		}
+	}
+	// a shard with at least two keys of the list
+	byShard := map[int][]int{}
+	for _, k := range list {
+		byShard[sh.shards[k]] = append(byShard[sh.shards[k]], k)
+	}
+	var cands []int
+	for s := 0; s < sh.prime; s++ {
+		if len(byShard[s]) >= 2 {
+			cands = append(cands, s)
+		}
+	}
+	if len(cands) == 0 { // cannot happen with >= 13 keys over <= 3 shards
+		return genScript(r, "ordered-multi", true, true, false, 10)
+	}
+	s0 := cands[r.Intn(len(cands))]
+	same := byShard[s0]
+	lw := map[bool]string{true: "locks", false: "rlocks"}
+	sw := map[bool]string{true: "lock", false: "rlock"}
+	uw := map[bool]string{true: "unlock", false: "runlock"}
+	if variant < 2 {
+		bi := len(same) - 1
+		if variant == 1 {
+			bi = r.Range(1, len(same)-1)
+		}
+		b := same[bi]
+		mWrite := r.Chance(2, 3)
+		xWrite := !mWrite || r.Bool()
+		var probes []int
+		for _, a := range same[:bi] {
+			probes = append(probes, a)
+		}
+		for len(probes) > 12 {
+			i := r.Intn(len(probes))
+			probes = append(probes[:i], probes[i+1:]...)
+		}
+		var later []int
+		for _, k := range list {
+			if sh.shards[k] > s0 {
+				later = append(later, k)
+			}
+		}
+		sh.N = 2 + len(probes) + 1
+		lines := []string{sh.init(), fmt.Sprintf("%s 0 %d", sw[xWrite], b), fmt.Sprintf("%s 1 %s", lw[mWrite], keyList(list))}
+		for i, a := range probes {
+			lines = append(lines, fmt.Sprintf("%s %d %d", sw[!mWrite || r.Bool()], 2+i, a))
+		}
+		if len(later) > 0 {
+			c := later[r.Intn(len(later))]
+			t := sh.N - 1
+			lines = append(lines, fmt.Sprintf("lock %d %d", t, c), "counts "+strconv.Itoa(c), fmt.Sprintf("unlock %d %d", t, c))
+		}
+		lines = append(lines, fmt.Sprintf("%s 0 %d", uw[xWrite], b), "entries", "drain", "entries")
+		return corr.Case{Tag: "long-list-order", Lines: lines}
+	}
+	ai := r.Intn(len(same) - 1)
+	a, b := same[ai], same[r.Range(ai+1, len(same)-1)]
+	sh.N = 4
+	lines := []string{sh.init(), fmt.Sprintf("rlock 0 %d", a), fmt.Sprintf("lock 1 %d", a), fmt.Sprintf("locks 2 %s", keyList(list)),
+		fmt.Sprintf("rlocks 3 %d,%d", a, b), fmt.Sprintf("runlock 0 %d", a), fmt.Sprintf("unlock 1 %d", a), "drain", "entries"}
+	return corr.Case{Tag: "long-list-deadlock", Lines: lines}
+}
+
 func genMalformed(r *rng.R) corr.Case {
 	sh := genShape(r, false)
 	lines := []string{sh.init()}
@@ -427,6 +512,11 @@ func fixedCases() []corr.Case {
 			mk("fixed-opposite-orders", init, "lock 2 0", "locks 0 0,1", "locks 1 1,0", "unlock 2 0", "drain", "entries"),
 		)
 	}
+	// long multi-key lists on sharded lockers (same-shard keys must keep the caller's order, whatever the list length)
+	lr := rng.New(20260930)
+	for i := 0; i < 24; i++ {
+		out = append(out, genLongList(lr.Fork(uint64(i)), i%3))
+	}
 	// an unordered nest of single locks: a real deadlock, expected (no order discipline) — both sides must report the same stuck threads
 	out = append(out, mk("fixed-unordered-deadlock", "init kl mod 1 2 2 0 0", "lock 0 0", "lock 1 1", "lock 0 1", "lock 1 0", "drain", "entries"))
 	return out
@@ -439,14 +529,14 @@ func spec() corr.Spec {
 		Count: func(tier string) int {
 			switch tier {
 			case "quick":
-				return 2000
+				return 1500
 			case "thorough":
 				if enumCache == nil {
 					enumCache = enumScripts(enumDepth)
 				}
 				return 4*len(enumCache) + 16000
 			}
-			return 12000
+			return 3000
 		},
 		Shards: func(tier string) int {
 			if tier == "quick" {
@@ -468,6 +558,8 @@ func spec() corr.Spec {
 				n = r.Range(20, 40)
 			}
 			switch x := r.Intn(100); {
+			case x < 8:
+				return genLongList(r, r.Intn(3))
 			case x < 30:
 				return genScript(r, "ordered-multi", true, true, false, n)
 			case x < 50:
@@ -499,7 +591,7 @@ func spec() corr.Spec {
 			}
 			return parked && calls >= 4
 		},
-		Rule: "scripts of lock/rlock/unlock/runlock/locks/rlocks/unlocks/runlocks by 2..6 threads over 1..4 keys on KeyLocker, KeyLockerGrp, TKeyLocker[int|string], TKeyLockerGrp[int|string] (modulo / xxhash routing, 1,2,3,73 shards; shard patterns: one shard, opposite to key order, random); each call runs in its own goroutine until it returns or parks (quiescence from goroutine states); thorough adds every script of <= 5 valid single-key calls by 3 threads over 2 keys on all four lockers; classes: order-respecting multi-key, single-key, hot key (1..2 keys, up to 6 threads), unordered (deadlocks allowed), malformed lines; every script ends with drain + entries; non-trivial = some call parked and >= 4 calls ran; distinct = distinct script text",
+		Rule: "scripts of lock/rlock/unlock/runlock/locks/rlocks/unlocks/runlocks by 2..6 threads over 1..4 keys (long-list classes: 13..24 keys on 2..3 shards, up to 15 threads) on KeyLocker, KeyLockerGrp, TKeyLocker[int|string], TKeyLockerGrp[int|string] (modulo / xxhash routing, 1,2,3,73 shards; shard patterns: one shard, opposite to key order, random); each call runs in its own goroutine until it returns or parks (quiescence from goroutine states); thorough adds every script of <= 5 valid single-key calls by 3 threads over 2 keys on all four lockers; classes: order-respecting multi-key, single-key, hot key (1..2 keys, up to 6 threads), unordered (deadlocks allowed), malformed lines; every script ends with drain + entries; non-trivial = some call parked and >= 4 calls ran; distinct = distinct script text",
 		Assumptions: []string{
 			"sync.RWMutex / sync.Mutex behave as documented (writer preference; a blocked writer excludes later readers); pending writers are admitted in arrival order when nothing else runs (observed, not relied upon by the theorems: the model admits any pending writer)",
 			"a runnable goroutine eventually runs; a holder eventually unlocks (premise of the deadlock clause)",
